@@ -190,9 +190,82 @@ pub fn exec(p: &Program, ctx: &Context) -> R {
 }
 
 /// Context::default() plus the given variables (each converted to a fresh value)
+/// a reference value seen through serde: integers in the narrowest Rust type that holds them (i8 ... u64), strings,
+/// bytes, sequences, maps with keys of the same kinds, durations and timestamps through the crate's wrappers
+pub struct SerdeV<'a>(pub &'a V);
+
+impl serde::Serialize for SerdeV<'_> {
+    fn serialize<Z: serde::Serializer>(&self, z: Z) -> Result<Z::Ok, Z::Error> {
+        use serde::ser::{SerializeMap, SerializeSeq};
+        match self.0 {
+            V::Null => z.serialize_unit(),
+            V::Bool(b) => z.serialize_bool(*b),
+            V::Int(i) => {
+                if let Ok(x) = i8::try_from(*i) {
+                    z.serialize_i8(x)
+                } else if let Ok(x) = i16::try_from(*i) {
+                    z.serialize_i16(x)
+                } else if let Ok(x) = i32::try_from(*i) {
+                    z.serialize_i32(x)
+                } else {
+                    z.serialize_i64(*i)
+                }
+            }
+            V::UInt(u) => {
+                if let Ok(x) = u8::try_from(*u) {
+                    z.serialize_u8(x)
+                } else if let Ok(x) = u16::try_from(*u) {
+                    z.serialize_u16(x)
+                } else if let Ok(x) = u32::try_from(*u) {
+                    z.serialize_u32(x)
+                } else {
+                    z.serialize_u64(*u)
+                }
+            }
+            V::Float(f) => z.serialize_f64(f.0),
+            V::Str(s) => z.serialize_str(s),
+            V::Bytes(b) => z.serialize_bytes(b),
+            V::List(xs) => {
+                let mut s = z.serialize_seq(Some(xs.len()))?;
+                for x in xs {
+                    s.serialize_element(&SerdeV(x))?;
+                }
+                s.end()
+            }
+            V::Map(es) => {
+                let mut s = z.serialize_map(Some(es.len()))?;
+                for (k, v) in es {
+                    s.serialize_entry(&SerdeV(k), &SerdeV(v))?;
+                }
+                s.end()
+            }
+            V::Dur(secs, nanos) => match dur_to_chrono(*secs, *nanos) {
+                Some(d) => cel_interpreter::Duration(d).serialize(z),
+                None => Err(serde::ser::Error::custom("not representable")),
+            },
+            V::Ts(secs, nanos, off) => match ts_to_chrono(*secs, *nanos, *off) {
+                Some(t) => cel_interpreter::Timestamp(t).serialize(z),
+                None => Err(serde::ser::Error::custom("not representable")),
+            },
+            V::Func(..) => Err(serde::ser::Error::custom("function values have no serde form")),
+        }
+    }
+}
+
+/// The context of a case: `Context::default()` plus the variables.  About one variable in three reaches it the way
+/// host data usually does - `Context::add_variable` with a `Serialize` value - instead of as a ready-made `Value`
+/// (the choice is a function of the variable, so a case always builds the same context).
 pub fn ctx_with(vars: &[(String, V)]) -> Context<'static> {
     let mut c = Context::default();
     for (n, v) in vars {
+        // (function values have no serde form; the Timestamp wrapper travels as RFC 3339 text, which spells offsets in whole minutes)
+        let through_serde = !v.any(&|x| matches!(x, V::Func(..)) || matches!(x, V::Ts(_, _, off) if off % 60 != 0)) && format!("{n}{v:?}").bytes().fold(0u32, |h, x| h.wrapping_mul(31).wrapping_add(x as u32)) % 3 == 0;
+        if through_serde {
+            // (a conversion that fails or panics is C17's to report; here the variable then goes in directly)
+            if let Ok(Ok(())) = guard(|| c.add_variable(n.clone(), SerdeV(v)).map_err(|_| ())) {
+                continue;
+            }
+        }
         if let Some(cv) = to_cel(v) {
             c.add_variable_from_value(n.clone(), cv);
         }
